@@ -11,7 +11,9 @@ TRUSTED = [
     "class A with a partial theorem ('whenever the model returns'): bn_gcd_lehme / bn_gcd_ext_lehme (unimodular simulated matrix keeps the gcd, tracked "
     "cofactor + exact division give Bezout; absence of dis_t overflow / negative intermediates / fuel exhaustion is checked by the model on every line — it then prints "
     "`model-overflow-or-fuel` — not proved)",
-    "class C in the gcd family: bn_gcd_ext_mid (half-gcd for lattice reduction; not presented)",
+    "class A with a weaker specification: bn_gcd_ext_mid (Model/NtGcdMid.lean mirrors the loop incl. the outputs left unwritten on some paths; theorem gcd_ext_mid_lattice: "
+    "both returned vectors lie in the lattice x + y*v0 = 0 mod u0; that they are SHORT is not proved — C18 checks the GLV decomposition they give on every curve); "
+    "the harness passes zero-initialised outputs and the model is run with the same prior values",
 ]
 
 CORPUS = [
@@ -22,6 +24,9 @@ CORPUS = [
     "nt_gcd_ext dig 5 5", "nt_gcd_ext dig -5 5", "nt_gcd_ext dig a 5", "nt_gcd_ext dig 5 a", "nt_gcd_ext dig -7 0", "nt_gcd_ext dig 0 7", "nt_gcd dig -7 3",
     "nt_gcd dig -6 3", "nt_gcd lcm 0 5", "nt_gcd lcm 5 0", "nt_gcd lcm 0 0", "nt_gcd lcm -4 6", "nt_gcd lcm 4 -6", "nt_gcd lcm 6 6",
     "nt_gcd lehme 0 0", "nt_gcd_ext lehme 0 0", "nt_gcd_ext lehme 0 5", "nt_gcd_ext lehme -5 0", "nt_gcd_ext lehme 5 5", "nt_gcd_ext lehme -c 12", "nt_gcd_ext lehme 12 -c",
+    "nt_gcd_ext mid 0 5", "nt_gcd_ext mid 5 0", "nt_gcd_ext mid 0 0", "nt_gcd_ext mid c 12", "nt_gcd_ext mid 12 c", "nt_gcd_ext mid 3e8 61", "nt_gcd_ext mid 61 3e8",
+    "nt_gcd_ext mid 7 7", "nt_gcd_ext mid 1 1", "nt_gcd_ext mid -3e8 61", "nt_gcd_ext mid 5 3", "nt_gcd_ext mid 2 1", "nt_gcd_ext mid 1 2", "nt_gcd_ext mid 10001 100", "nt_gcd_ext mid 100 ff",
+    "nt_gcd_ext mid ffffffffffffffffffffffff 123456789abcdef",
     "nt_inv 1 2", "nt_inv 3 2", "nt_inv -1 2", "nt_inv 2 4", "nt_inv 0 5", "nt_inv 5 5", "nt_inv 6 5", "nt_inv -6 5", "nt_inv 4 -7",
     "nt_inv_sim 7 3", "nt_inv_sim 7 3 5", "nt_inv_sim 7 3 5 6 1 2 4", "nt_inv_sim 7 3 0 5", "nt_inv_sim 9 2 3 4", "nt_inv_sim 7 a -3 10",
 ]
@@ -101,7 +106,7 @@ def gen(rng, w, cap, digs, n):
                 b = abs(b) % B if rng.chance(2, 3) else rng.choice([0, 1, 2, B - 1, B >> 1])
             out.append("nt_gcd %s %s %s" % (v, hx(a), hx(b)))
         elif k < 7:
-            v = rng.choice(["basic", "binar", "binar", "ext", "dig", "lehme", "lehme"])
+            v = rng.choice(["basic", "binar", "binar", "ext", "dig", "lehme", "lehme", "mid"])
             a, b = _pair(rng, w, m)
             if v == "dig":
                 b = abs(b) % B if rng.chance(2, 3) else rng.choice([0, 1, 2, B - 1, B >> 1])
